@@ -107,8 +107,11 @@ const (
 	BRcpOldestRegistersThenPanics
 	BRcpOldestRegistersThenSkips
 	BRcpOldestRegistersThenFatal
-	BFatalDeepA // Fatalf 42 frames below site A': a recursion deeper than any fixed traceback length
-	BFatalDeepB // the same 42 innermost frames, reached from site B'
+	BCleanupErrorfCleanupSkipThenSkip // older cleanup Errorfs, newer cleanup skips, and the body skips as well
+	BErrorfThenPanic                  // Errorf, then an unrelated plain panic
+	BCleanupFatalThenPanic            // registers a cleanup that calls Fatalf, then a plain panic
+	BFatalDeepA                       // Fatalf 42 frames below site A': a recursion deeper than any fixed traceback length
+	BFatalDeepB                       // the same 42 innermost frames, reached from site B'
 	numBeh
 )
 
@@ -124,6 +127,7 @@ var behNames = [...]string{"pass", "Skip", "Errorf", "Errorf;Skip", "Fail", "Fat
 	"Cleanup(panic);Skip", "Cleanup(panic);rejected-draw", "Cleanup(nil-map-write);Skip",
 	"rcp:Context-only-inside-a-cleanup", "rcp:newer-cleanup-panics-then-older-one-asks-for-Context", "rcp:newer-cleanup-skips-then-older-one-asks-for-Context",
 	"rcp:oldest-cleanup-registers-another-then-panics", "rcp:oldest-cleanup-registers-another-then-skips", "rcp:oldest-cleanup-registers-another-then-Fatalf",
+	"Cleanup(Errorf)+Cleanup(Skip);Skip", "Errorf;panic", "Cleanup(Fatalf);panic",
 	"Fatalf@deep-A", "Fatalf@deep-B"}
 
 func (b Beh) String() string { return behNames[b] }
@@ -153,7 +157,7 @@ func (b Beh) Falsifies() bool {
 // Skips: does b (also) skip?
 func (b Beh) Skips() bool {
 	switch b {
-	case BSkip, BErrorfSkip, BSkipNow, BSkipf, BRcpThenSkip, BCleanupErrorfSkip, BCleanupSkip, BRcpCleanupSkips, BRcpSkipWithCleanupErrorf, BRcpSkipThenCtxInOlderCleanup, BRcpOldestRegistersThenSkips:
+	case BSkip, BErrorfSkip, BSkipNow, BSkipf, BRcpThenSkip, BCleanupErrorfSkip, BCleanupSkip, BRcpCleanupSkips, BRcpSkipWithCleanupErrorf, BRcpSkipThenCtxInOlderCleanup, BRcpOldestRegistersThenSkips, BCleanupErrorfCleanupSkipThenSkip:
 		return true
 	}
 	return false
@@ -370,6 +374,16 @@ func Perform(t *rapid.T, b Beh, msg string) {
 	case BCleanupPanicCleanupSkip:
 		t.Cleanup(func() { sitePanic("boom in cleanup " + msg) })
 		t.Cleanup(func() { t.Skip("skip from the newer cleanup " + msg) })
+	case BCleanupErrorfCleanupSkipThenSkip:
+		t.Cleanup(func() { t.Errorf("nonfatal in cleanup: %s", msg) })
+		t.Cleanup(func() { t.Skip("skip from the newer cleanup " + msg) })
+		t.Skip("skip " + msg)
+	case BErrorfThenPanic:
+		t.Errorf("nonfatal: %s", msg)
+		sitePanic("boom %v 5% " + msg)
+	case BCleanupFatalThenPanic:
+		t.Cleanup(func() { t.Fatalf("fatal in cleanup: %s", msg) })
+		sitePanic("boom %v 5% " + msg)
 	case BFatalDeepA:
 		deepSiteA(t, msg)
 	case BFatalDeepB:
